@@ -5,27 +5,53 @@
    Transliterated Go functions (what each definition below follows):
      EnterName_with_attribs   head_step      lookup-or-create of the app by name, LongName, attribute merge
      mergeAttrs               merge_attrs    per key: absent -> set; both arrays -> append; else later wins
-     makeAttributeArray       make_attrs     name="v" pairs (later wins), ~modifiers collected under "patterns"
-     EnterTable/EnterTable_def/EnterField/ExitTable
+     makeAttributeArray       make_attrs     name="v" / name=["a","b"] pairs (later wins), ~modifiers under "patterns"
+     EnterAnnotation/EnterAnnotation_value/addAttrWithPrecedence
+                              anno_f, anno_step   `@k = v` on the attributes of the innermost scope (application,
+                                             type, endpoint): the FIRST non-empty value of a name stays, an empty
+                                             string / empty array is overwritten, "patterns" arrays are appended
+     mergeAttrsWithPrecendence merge_prec    the same rule key by key (a field declared again, EnterField_type)
+     EnterTable/EnterTable_def/EnterTable_stmts/EnterField/EnterField_type/ExitTable
                               table_step     re-open reuses the existing attr_defs map (typemap aliasing), an
                                              existing type keeps its kind, type attributes merged (patterns
-                                             append, others overwrite), primary key from THIS block's fields
+                                             append, others overwrite), annotations, a field declared again is
+                                             MERGED (type: later wins, `?` sticks, attributes by precedence),
+                                             primary key from THIS block's fields (+ the earlier key: pk_mode)
      EnterEnum                enum_step      replaces the type, only if it has items
-     EnterSimple_endpoint     ep_step        lookup-or-create, mergeAttrs, statements appended
-     EnterEvent               event_step     lookup-or-create (is_pubsub), statements appended
-     EnterRest_endpoint/ExitHttp_path/EnterMethod_def
-                              rest_eps       prefix stack -> endpoint name METHOD + joined path, ["rest"] pattern
+     EnterAlias/ExitAlias     alias_step     always replaces the type
+     EnterUnion/ExitUnion     union_step     always replaces the type
+     EnterSimple_endpoint/ExitParams
+                              ep_step        lookup-or-create, mergeAttrs, parameters and statements appended
+     EnterEvent               event_step     lookup-or-create (is_pubsub), parameters and statements appended
+     EnterRest_endpoint/ExitHttp_path/EnterHttp_path_var_with_type/EnterMethod_def/EnterQuery_var/ExitMethod_def
+                              rest_eps, method_step   prefix stack -> endpoint name METHOD + joined path, ["rest"]
+                                             pattern merged, url parameters of the whole prefix REPLACE, query
+                                             parameters and statements are appended
+     EnterMixin/ExitMixin     MX             Mixin2 = append(Mixin2, target)
+     EnterSubscribe           sub_step + subcall_step   the subscriber's endpoint `Pub -> Evt` is REPLACED; the
+                                             publisher (created if missing) gets the event endpoint if missing
+                                             and one more call statement
+     pushScope/addToCurrentScope/popScope    statements of nested scopes (if / else / loops / groups / one of)
+                                             stay inside their statement: a body is a token list SOpen .. SClose
      flattenSpecs             flatten        each file once, a file before its imports, imports in textual order
 
-   Conventions: every string (names, texts, tags, path segments, type spellings) is an interned `positive`
-   owned by the harness; ids 1-4 are fixed ("patterns", "rest", "pk", "...").  Go maps are std++ gmaps; a nil map
-   and an empty map are identified (proto.Equal does the same).  `rel.PrimaryKey` is kept NEXT TO the module
-   (pkmap keyed by app and type name; absent = nil key) - an isomorphic presentation of the same state that
-   lets the theorems say "equal, except that key lists may be permuted".
+   Conventions: every string (names, texts, tags, path segments, type spellings, parameter spellings) is an
+   interned `positive` owned by the harness; ids 1-6 are fixed ("patterns", "rest", "pk", "...", the empty
+   string value, the key of the mixin lists).  Go maps are std++ gmaps; a nil map and an empty map are
+   identified (proto.Equal does the same).  The two lists that grow in declaration order across blocks and whose
+   ORDER therefore follows the block order - `rel.PrimaryKey.AttrName` of a table and `app.Mixin2` - are kept
+   NEXT TO the module in one map (keyed by app and type name, resp. by app and mixin_key; absent = nil) - an
+   isomorphic presentation of the same state that lets the theorems say "equal, except that these lists may be
+   permuted".
 
    The way ExitTable combines the key fields of this block with the key the table already has is read from
    the source by the translator (Gen/MergeRules.v: pk_mode):  PkReplace = recompute from this block only
-   (the code as found), PkUnion = keep the earlier key fields and add the new ones (the repaired code). *)
+   (the code as found), PkUnion = keep the earlier key fields and add the new ones (the repaired code).
+
+   Not modelled (the harness never writes them where the model is compared): `@patterns = ..` on attributes
+   without a "patterns" entry (the code dereferences a nil interface there), annotations inside nested scopes
+   (peekAttrs panics), annotations of unions (copied to the members), attributes and annotations of a REST path
+   (only those of a method), chains of mixins and the copying of mixed-in types (postProcess). *)
 From Coq Require Import String List ZArith NArith Bool.
 From stdpp Require Import gmap.
 Import ListNotations.
@@ -37,32 +63,49 @@ Definition patterns_key : name := 1%positive.
 Definition rest_tag : name := 2%positive.
 Definition pk_tag : name := 3%positive.
 Definition dots_name : name := 4%positive.
+Definition empty_str : name := 5%positive.        (* the attribute value "" *)
+Definition mixin_key : name := 6%positive.        (* (app, mixin_key) : the app's Mixin2 list *)
+
+(* ---------- attribute values ---------- *)
+Inductive attrv := VS (s:name) | VA (l:list name).
+Notation attrs := (gmap name attrv).
+Definition anno := (name * attrv)%type.                         (* @k = "v"  /  @k = ["a", "b"] *)
 
 (* ---------- what the text declares, block by block ---------- *)
-Inductive entry := EN (k v:name) | ET (t:name).            (* [k="v", ~t] *)
+Inductive entry := EN (k v:name) | ET (t:name) | EA (k:name) (l:list name).   (* [k="v", ~t, k=["a","b"]] *)
 Record fielddecl := FD { fd_name : name; fd_ty : name; fd_opt : bool; fd_attrs : list entry }.
-Inductive stmt := SA (t:name) | SC (app:appname) (ep:name) | SR (t:name).
-Inductive rnode := RN (segs:list name) (methods:list (name * list entry * list stmt)) (subs:list rnode).
+(* a body is the sequence of listener events: SOpen kind label .. SClose brackets the statements of a nested scope *)
+Inductive stmt := SA (t:name) | SC (app:appname) (ep:name) | SR (t:name) | SOpen (kind label:name) | SClose.
+Record methoddecl := MD { md_verb : name; md_attrs : list entry; md_annos : list anno; md_params : list name;
+                          md_query : list name; md_body : list stmt }.
+(* path segments as they appear in the endpoint name ("p1", "{id}"), the typed variables among them *)
+Inductive rnode := RN (segs:list name) (vars:list name) (methods:list methoddecl) (subs:list rnode).
 Inductive member :=
-| MT (table:bool) (n:name) (a:list entry) (fs:list fielddecl)   (* !type / !table (one block's share of the fields) *)
-| ME (n:name) (a:list entry) (items:list (name * Z))            (* !enum *)
-| MP (n:name) (a:list entry) (body:list stmt)                   (* simple endpoint *)
-| MV (n:name) (body:list stmt)                                  (* <-> event *)
-| MR (r:rnode)                                                  (* REST tree *)
-| MW.                                                           (* `...` as the only content of a block *)
+| MT (table:bool) (n:name) (a:list entry) (annos:list anno) (fs:list fielddecl)  (* !type / !table: one block's share *)
+| ME (n:name) (a:list entry) (annos:list anno) (items:list (name * Z))           (* !enum *)
+| MAl (n:name) (a:list entry) (annos:list anno) (ty:name)                        (* !alias *)
+| MU (n:name) (a:list entry) (alts:list name)                                    (* !union *)
+| MP (n:name) (a:list entry) (annos:list anno) (params:list name) (body:list stmt)   (* simple endpoint *)
+| MV (n:name) (params:list name) (body:list stmt)                                (* <-> event *)
+| MR (r:rnode)                                                                   (* REST tree *)
+| MX (target:name)                                                               (* -|> App *)
+| MS (key:name) (pub:appname) (evt:name) (a:list entry) (annos:list anno) (body:list stmt)  (* Pub -> Evt: *)
+| MA (x:anno)                                                                    (* @k = v in the application body *)
+| MW.                                                                            (* `...` as the only content of a block *)
 Record block := B { b_app : appname; b_long : option name; b_attrs : list entry; b_members : list member }.
 
 Inductive pkmode := PkReplace | PkUnion | PkUnknown.
 
 (* ---------- the compiled model (projection compared with *sysl.Module) ---------- *)
-Inductive attrv := VS (s:name) | VA (l:list name).
-Notation attrs := (gmap name attrv).
 Record field := Fld { f_ty : name; f_opt : bool; f_attrs : attrs }.
 Inductive typeent :=
 | TRec (rel:bool) (a:attrs) (fs:gmap name field)
-| TEnum (a:attrs) (items:gmap name Z).
+| TEnum (a:attrs) (items:gmap name Z)
+| TAlias (a:attrs) (ty:name)
+| TUnion (a:attrs) (alts:list name).
 Definition epkey := (option name * list name)%type.        (* (None,[n]) = named; (Some verb, path) = REST *)
-Record endpoint := Ep { e_pubsub : bool; e_rest : bool; e_attrs : attrs; e_stmts : list stmt }.
+Record endpoint := Ep { e_pubsub : bool; e_rest : bool; e_source : option appname; e_attrs : attrs;
+                        e_params : list name; e_query : list name; e_url : list name; e_stmts : list stmt }.
 Record app := App { a_long : option name; a_attrs : attrs; a_types : gmap name typeent; a_eps : gmap epkey endpoint }.
 Notation module := (gmap appname app).
 Notation pkmap := (gmap (appname * name) (list name)).
@@ -76,12 +119,13 @@ Global Instance endpoint_eq_dec : EqDecision endpoint. Proof. solve_decision. De
 Global Instance app_eq_dec : EqDecision app. Proof. solve_decision. Defined.
 
 Definition empty_app : app := App None ∅ ∅ ∅.
+Definition new_ep (pubsub rest:bool) : endpoint := Ep pubsub rest None ∅ [] [] [] [].
 
 (* ---------- attributes ---------- *)
 (* makeAttributeArray *)
 Definition make_attrs (es:list entry) : attrs :=
-  let nv := fold_left (fun (m:attrs) e => match e with EN k v => <[k := VS v]> m | ET _ => m end) es ∅ in
-  let pats := flat_map (fun e => match e with ET t => [t] | EN _ _ => [] end) es in
+  let nv := fold_left (fun (m:attrs) e => match e with EN k v => <[k := VS v]> m | EA k l => <[k := VA l]> m | ET _ => m end) es ∅ in
+  let pats := flat_map (fun e => match e with ET t => [t] | _ => [] end) es in
   match pats with [] => nv | _ => <[patterns_key := VA pats]> nv end.
 
 (* mergeAttrs(src, dst): the loop body touches key k only, so the loop is a key-wise merge *)
@@ -102,8 +146,44 @@ Definition merge_tattrs (src dst:attrs) : attrs :=
   | _, _ => base
   end.
 
+(* addAttrWithPrecedence(attrs, k, v) as a function of the entry under k *)
+Definition nonempty (v:attrv) : bool :=
+  match v with VS s => negb (Pos.eqb s empty_str) | VA [] => false | VA (_ :: _) => true end.
+Definition anno_f (k:name) (v:attrv) (o:option attrv) : option attrv :=
+  match o with
+  | None => Some v
+  | Some old =>
+      if Pos.eqb k patterns_key then
+        match old, v with VA x, VA y => Some (VA (x ++ y)) | _, _ => Some v end
+      else if nonempty old then Some old else Some v
+  end.
+Definition anno_step (x:anno) (a:attrs) : attrs := partial_alter (anno_f (fst x) (snd x)) (fst x) a.
+Definition annos_step (l:list anno) (a:attrs) : attrs := fold_left (fun a x => anno_step x a) l a.
+
+(* mergeAttrsWithPrecendence(cur, new) = addAttrWithPrecedence for every key of new *)
+Definition prec1 (c n:option attrv) : option attrv :=
+  match n, c with
+  | None, _ => c
+  | Some v, None => Some v
+  | Some v, Some old => if nonempty old then Some old else Some v
+  end.
+Definition merge_prec (cur new:attrs) : attrs :=
+  let base := merge prec1 cur new in
+  match cur !! patterns_key, new !! patterns_key with
+  | Some (VA x), Some (VA y) => <[patterns_key := VA (x ++ y)]> base
+  | _, _ => base
+  end.
+
 (* ---------- types ---------- *)
-Definition mk_field (fd:fielddecl) : field := Fld (fd_ty fd) (fd_opt fd) (make_attrs (fd_attrs fd)).
+(* EnterField + EnterField_type: a new field, or the field the table already has, declared again *)
+Definition field_step (old:option field) (fd:fielddecl) : field :=
+  match old with
+  | None => Fld (fd_ty fd) (fd_opt fd) (make_attrs (fd_attrs fd))
+  | Some f => Fld (fd_ty fd) (f_opt f || fd_opt fd)
+                  (match fd_attrs fd with [] => f_attrs f | _ => merge_prec (f_attrs f) (make_attrs (fd_attrs fd)) end)
+  end.
+Definition insert_fields (fs:list fielddecl) (fs0:gmap name field) : gmap name field :=
+  fold_left (fun m fd => <[fd_name fd := field_step (m !! fd_name fd) fd]> m) fs fs0.
 
 (* ExitTable: for name in s.fieldname: for each "pk" among the patterns of attr_defs[name] *)
 Definition key_fields (fs:list fielddecl) (stored:gmap name field) : list name :=
@@ -126,77 +206,114 @@ Definition pk_update (mode:pkmode) (old:option (list name)) (new:list name) : op
   | _ => match new with [] => old | l => Some l end
   end.
 
-Definition table_step (mode:pkmode) (an:appname) (table:bool) (n:name) (a:list entry) (fs:list fielddecl)
-    (ap:app) (pk:pkmap) : app * pkmap :=
-  let types := a_types ap in
+Definition tattrs (t:typeent) : attrs :=
+  match t with TRec _ a _ => a | TEnum a _ => a | TAlias a _ => a | TUnion a _ => a end.
+Definition tattrs_step (a:list entry) (a0:attrs) : attrs :=
+  match a with [] => a0 | _ => merge_tattrs (make_attrs a) a0 end.
+
+(* what a `!type` / `!table` block does to the entry under its name and to the table's key *)
+Definition type_g (mode:pkmode) (table:bool) (a:list entry) (annos:list anno) (fs:list fielddecl)
+    (t:option typeent) (p:option (list name)) : option typeent * option (list name) :=
   (* EnterTable: typemap aliases the existing attr_defs; created only if absent *)
-  let cur := match types !! n with Some t => t | None => TRec table ∅ ∅ end in
+  let cur := default (TRec table ∅ ∅) t in
+  let a1 := annos_step annos (tattrs_step a (tattrs cur)) in
   match cur with
-  | TRec rel a0 fs0 =>
-      let a1 := match a with [] => a0 | _ => merge_tattrs (make_attrs a) a0 end in
-      let fs1 := fold_left (fun m fd => <[fd_name fd := mk_field fd]> m) fs fs0 in
-      let ap' := App (a_long ap) (a_attrs ap) (<[n := TRec rel a1 fs1]> types) (a_eps ap) in
-      if rel then (ap', partial_alter (fun old => pk_update mode old (key_fields fs fs1)) (an, n) pk)
-      else (ap', pk)
-  | TEnum a0 items =>
-      (* the fields go into a map nobody keeps; only the attributes reach the existing enum *)
-      let a1 := match a with [] => a0 | _ => merge_tattrs (make_attrs a) a0 end in
-      (App (a_long ap) (a_attrs ap) (<[n := TEnum a1 items]> types) (a_eps ap), pk)
+  | TRec rel _ fs0 =>
+      let fs1 := insert_fields fs fs0 in
+      (Some (TRec rel a1 fs1), if rel then pk_update mode p (key_fields fs fs1) else p)
+  (* the fields go into a map nobody keeps; only the attributes reach the existing enum / alias / union *)
+  | TEnum _ items => (Some (TEnum a1 items), p)
+  | TAlias _ ty => (Some (TAlias a1 ty), p)
+  | TUnion _ alts => (Some (TUnion a1 alts), p)
   end.
 
-Definition enum_step (an:appname) (n:name) (a:list entry) (items:list (name * Z)) (ap:app) (pk:pkmap) : app * pkmap :=
-  match items with
-  | [] => (ap, pk)
-  | _ => (App (a_long ap) (a_attrs ap)
-              (<[n := TEnum (make_attrs a) (fold_left (fun m it => <[fst it := snd it]> m) items ∅)]> (a_types ap)) (a_eps ap),
-          delete (an, n) pk)
+Definition set_types (ap:app) (ts:gmap name typeent) : app := App (a_long ap) (a_attrs ap) ts (a_eps ap).
+Definition set_eps (ap:app) (es:gmap epkey endpoint) : app := App (a_long ap) (a_attrs ap) (a_types ap) es.
+
+Definition table_step (mode:pkmode) (an:appname) (table:bool) (n:name) (a:list entry) (annos:list anno)
+    (fs:list fielddecl) (ap:app) (pk:pkmap) : app * pkmap :=
+  let r := type_g mode table a annos fs (a_types ap !! n) (pk !! (an, n)) in
+  (set_types ap (partial_alter (fun _ => fst r) n (a_types ap)), partial_alter (fun _ => snd r) (an, n) pk).
+
+(* EnterEnum (only with items), EnterAlias, EnterUnion: the entry is a NEW type - whatever was there, with its key, is gone *)
+Definition repl_step (an:appname) (n:name) (t:option typeent) (ap:app) (pk:pkmap) : app * pkmap :=
+  match t with
+  | None => (ap, pk)
+  | Some t' => (set_types ap (<[n := t']> (a_types ap)), delete (an, n) pk)
   end.
+Definition enum_ent (a:list entry) (annos:list anno) (items:list (name * Z)) : option typeent :=
+  match items with
+  | [] => None
+  | _ => Some (TEnum (annos_step annos (make_attrs a)) (fold_left (fun m it => <[fst it := snd it]> m) items ∅))
+  end.
+Definition alias_ent (a:list entry) (annos:list anno) (ty:name) : option typeent :=
+  Some (TAlias (annos_step annos (make_attrs a)) ty).
+Definition union_ent (a:list entry) (alts:list name) : option typeent := Some (TUnion (make_attrs a) alts).
 
 (* ---------- endpoints ---------- *)
-Definition ep_step (n:name) (a:list entry) (body:list stmt) (ap:app) : app :=
-  let k : epkey := (None, [n]) in
-  let e := match a_eps ap !! k with Some e => e | None => Ep false false ∅ [] end in
-  let at1 := match a with [] => e_attrs e | _ => merge_attrs (make_attrs a) (e_attrs e) end in
-  App (a_long ap) (a_attrs ap) (a_types ap) (<[k := Ep (e_pubsub e) (e_rest e) at1 (e_stmts e ++ body)]> (a_eps ap)).
+Definition hattrs_step (a:list entry) (a0:attrs) : attrs :=
+  match a with [] => a0 | _ => merge_attrs (make_attrs a) a0 end.
 
-Definition event_step (n:name) (body:list stmt) (ap:app) : app :=
-  let k : epkey := (None, [n]) in
-  let e := match a_eps ap !! k with Some e => e | None => Ep true false ∅ [] end in
-  App (a_long ap) (a_attrs ap) (a_types ap) (<[k := Ep (e_pubsub e) (e_rest e) (e_attrs e) (e_stmts e ++ body)]> (a_eps ap)).
+Definition ep_f (a:list entry) (annos:list anno) (params:list name) (body:list stmt) (e0:option endpoint) : option endpoint :=
+  let e := default (new_ep false false) e0 in
+  Some (Ep (e_pubsub e) (e_rest e) (e_source e) (annos_step annos (hattrs_step a (e_attrs e)))
+           (e_params e ++ params) (e_query e) (e_url e) (e_stmts e ++ body)).
+Definition ep_step (n:name) (a:list entry) (annos:list anno) (params:list name) (body:list stmt) (ap:app) : app :=
+  set_eps ap (partial_alter (ep_f a annos params body) (None, [n]) (a_eps ap)).
 
-(* the REST tree flattened to (endpoint key, attribute entries, body) in walk order; the renderer writes the
-   methods of a node before its sub-paths (the grammar would allow them mixed) *)
-Fixpoint rest_eps (prefix:list name) (r:rnode) : list (epkey * list entry * list stmt) :=
+Definition event_f (params:list name) (body:list stmt) (e0:option endpoint) : option endpoint :=
+  let e := default (new_ep true false) e0 in
+  Some (Ep (e_pubsub e) (e_rest e) (e_source e) (e_attrs e) (e_params e ++ params) (e_query e) (e_url e) (e_stmts e ++ body)).
+Definition event_step (n:name) (params:list name) (body:list stmt) (ap:app) : app :=
+  set_eps ap (partial_alter (event_f params body) (None, [n]) (a_eps ap)).
+
+(* the REST tree flattened to (endpoint key, url parameters of the whole path, method) in walk order; the renderer
+   writes the methods of a node before its sub-paths (the grammar would allow them mixed) *)
+Fixpoint rest_eps (prefix uvars:list name) (r:rnode) : list (epkey * list name * methoddecl) :=
   match r with
-  | RN segs methods subs =>
+  | RN segs vars methods subs =>
       let p := prefix ++ segs in
-      map (fun m => match m with (verb, a, body) => ((Some verb, p), a, body) end) methods
-      ++ flat_map (rest_eps p) subs
+      let u := uvars ++ vars in
+      map (fun m => ((Some (md_verb m), p), u, m)) methods ++ flat_map (rest_eps p u) subs
   end.
 
-Definition method_step (x:epkey * list entry * list stmt) (ap:app) : app :=
-  match x with (k, a, body) =>
-    let attrs_new := merge_attrs (make_attrs a) {[ patterns_key := VA [rest_tag] ]} in
-    let e := match a_eps ap !! k with Some e => e | None => Ep false true ∅ [] end in
-    App (a_long ap) (a_attrs ap) (a_types ap)
-        (<[k := Ep (e_pubsub e) (e_rest e) (merge_attrs attrs_new (e_attrs e)) (e_stmts e ++ body)]> (a_eps ap))
-  end.
+Definition method_f (u:list name) (m:methoddecl) (e0:option endpoint) : option endpoint :=
+  let attrs_new := merge_attrs (make_attrs (md_attrs m)) {[ patterns_key := VA [rest_tag] ]} in
+  let e := default (new_ep false true) e0 in
+  Some (Ep (e_pubsub e) (e_rest e) (e_source e) (annos_step (md_annos m) (merge_attrs attrs_new (e_attrs e)))
+           (e_params e ++ md_params m) (e_query e ++ md_query m)
+           (match u with [] => e_url e | _ => u end) (e_stmts e ++ md_body m)).
+Definition method_step (x:epkey * list name * methoddecl) (ap:app) : app :=
+  match x with (k, u, m) => set_eps ap (partial_alter (method_f u m) k (a_eps ap)) end.
+
+(* EnterSubscribe, first half: Endpoints[`Pub -> Evt`] = a NEW endpoint *)
+Definition sub_f (pub:appname) (a:list entry) (annos:list anno) (body:list stmt) (_:option endpoint) : option endpoint :=
+  Some (Ep false false (Some pub) (annos_step annos (make_attrs a)) [] [] [] body).
+(* second half, on the publisher: the event endpoint if missing, one more call statement *)
+Definition subcall_f (caller:appname) (key:name) (e0:option endpoint) : option endpoint :=
+  let e := default (new_ep true false) e0 in
+  Some (Ep (e_pubsub e) (e_rest e) (e_source e) (e_attrs e) (e_params e) (e_query e) (e_url e) (e_stmts e ++ [SC caller key])).
 
 (* ---------- one block ---------- *)
+Definition head_f (long:option name) (a:list entry) (l:option name) (at0:attrs) : option name * attrs :=
+  (match long with Some x => Some x | None => l end, hattrs_step a at0).
 Definition head_step (long:option name) (a:list entry) (ap:app) : app :=
-  let l := match long with Some x => Some x | None => a_long ap end in
-  let at1 := match a with [] => a_attrs ap | _ => merge_attrs (make_attrs a) (a_attrs ap) end in
-  App l at1 (a_types ap) (a_eps ap).
+  let r := head_f long a (a_long ap) (a_attrs ap) in App (fst r) (snd r) (a_types ap) (a_eps ap).
 
 Definition member_step (mode:pkmode) (an:appname) (m:member) (ap:app) (pk:pkmap) : app * pkmap :=
   match m with
-  | MT table n a fs => table_step mode an table n a fs ap pk
-  | ME n a items => enum_step an n a items ap pk
-  | MP n a body => (ep_step n a body ap, pk)
-  | MV n body => (event_step n body ap, pk)
-  | MR r => (fold_left (fun ap x => method_step x ap) (rest_eps [] r) ap, pk)
+  | MT table n a annos fs => table_step mode an table n a annos fs ap pk
+  | ME n a annos items => repl_step an n (enum_ent a annos items) ap pk
+  | MAl n a annos ty => repl_step an n (alias_ent a annos ty) ap pk
+  | MU n a alts => repl_step an n (union_ent a alts) ap pk
+  | MP n a annos params body => (ep_step n a annos params body ap, pk)
+  | MV n params body => (event_step n params body ap, pk)
+  | MR r => (fold_left (fun ap x => method_step x ap) (rest_eps [] [] r) ap, pk)
+  | MX x => (ap, partial_alter (fun old => Some (default [] old ++ [x])) (an, mixin_key) pk)
+  | MS key pub evt a annos body => (set_eps ap (partial_alter (sub_f pub a annos body) (None, [key]) (a_eps ap)), pk)
+  | MA x => (App (a_long ap) (anno_step x (a_attrs ap)) (a_types ap) (a_eps ap), pk)
   | MW => (* EnterSimple_endpoint, WHATEVER branch: unconditionally a fresh endpoint named "..." *)
-      (App (a_long ap) (a_attrs ap) (a_types ap) (<[(None, [dots_name]) := Ep false false ∅ []]> (a_eps ap)), pk)
+      (set_eps ap (<[(None, [dots_name]) := new_ep false false]> (a_eps ap)), pk)
   end.
 
 (* s.app is a pointer into module.Apps: every step acts on the entry under the block's app name *)
@@ -207,7 +324,16 @@ Inductive atom := AHead (an:appname) (long:option name) (a:list entry) | AMem (a
 Definition step (mode:pkmode) (s:state) (x:atom) : state :=
   match x with
   | AHead an long a => (<[an := head_step long a (cur_app (fst s) an)]> (fst s), snd s)
-  | AMem an m => let r := member_step mode an m (cur_app (fst s) an) (snd s) in (<[an := fst r]> (fst s), snd r)
+  | AMem an m =>
+      let r := member_step mode an m (cur_app (fst s) an) (snd s) in
+      let m1 := <[an := fst r]> (fst s) in
+      match m with
+      | MS key pub evt _ _ _ =>
+          (* the publisher's side of a subscription: another application of the same module *)
+          let pa := cur_app m1 pub in
+          (<[pub := set_eps pa (partial_alter (subcall_f an key) (None, [evt]) (a_eps pa))]> m1, snd r)
+      | _ => (m1, snd r)
+      end
   end.
 
 Definition atoms_of_block (b:block) : list atom :=
